@@ -125,3 +125,36 @@ Example pause_valid_statuses :
   filter (valid_in PauseInitiator) all_status = [Requested; Ongoing; Queued; AwaitingAcceptance] /\
   filter (valid_in PauseResponder) all_status = [Requested; Ongoing; TransferFinished; Queued; AwaitingAcceptance].
 Proof. split; vm_compute; reflexivity. Qed.
+
+(* while data may still flow, pausing and resuming are never meaningless: a paused side can always
+   resume (so its flag cannot get stuck), and every party can pause in the pre-transfer and
+   transferring statuses it can be in *)
+Definition resume_ok (s : Status) : bool :=
+  (negb (in_status s TransferringStates || status_eqb s Requested || status_eqb s Queued) ||
+   valid_in ResumeInitiator s) &&
+  (negb (status_eqb s Requested || status_eqb s Queued || status_eqb s Ongoing || status_eqb s AwaitingAcceptance) ||
+   (valid_in ResumeResponder s && valid_in PauseResponder s && valid_in PauseInitiator s)).
+Lemma resume_ok_all : forall s, resume_ok s = true.
+Proof. apply forall_status. vm_compute. reflexivity. Qed.
+
+Theorem resume_valid_while_transferring :
+  forall s,
+    (In s TransferringStates \/ s = Requested \/ s = Queued -> valid_in ResumeInitiator s = true) /\
+    (s = Requested \/ s = Queued \/ s = Ongoing \/ s = AwaitingAcceptance ->
+       valid_in ResumeResponder s = true /\ valid_in PauseResponder s = true /\ valid_in PauseInitiator s = true).
+Proof.
+  intros s. pose proof (resume_ok_all s) as H. unfold resume_ok in H.
+  apply andb_true_iff in H. destruct H as [H1 H2]. split.
+  - intros Hin. apply orb_true_iff in H1. destruct H1 as [H1|H1]; [|exact H1].
+    apply negb_true_iff in H1. exfalso.
+    assert (in_status s TransferringStates || status_eqb s Requested || status_eqb s Queued = true) as C.
+    { destruct Hin as [Hin|[->| ->]].
+      - unfold in_status. apply orb_true_iff; left. apply orb_true_iff; left.
+        apply existsb_exists. exists s. split; [exact Hin| apply status_eqb_refl].
+      - reflexivity.
+      - reflexivity. }
+    congruence.
+  - intros Hin. apply orb_true_iff in H2. destruct H2 as [H2|H2].
+    + apply negb_true_iff in H2. exfalso. destruct Hin as [->|[->|[->| ->]]]; discriminate H2.
+    + apply andb_true_iff in H2. destruct H2 as [H2 H3]. apply andb_true_iff in H2. tauto.
+Qed.
